@@ -34,6 +34,10 @@ def run(v):
     ffam += D.count_family(SEED + 8, 12 if q else 36, maxlen=3 if q else 4, budget=3000 if q else 30000)
     fcov = run_cmdline_property(v, ffam, None, signature=cmdline_sig.signature, name="C01f")
     cov = merge_cov(cov, fcov, "flag_with_value")
+    # batteries: two repeated flags read as one number, a table index, the cargo subcommand's name leading the line
+    bcov = run_cmdline_property(v, D.battery_family(SEED + 9, 16 if q else 64, maxlen=3 if q else 4, budget=3000 if q else 30000),
+                                "MC_CmdLine_design.cfg", signature=cmdline_sig.signature, name="C01b")
+    cov = merge_cov(cov, bcov, "batteries")
     cov["rule"] = ("every line over each definition's alphabet up to its maxlen, enumerated by TLC; non-trivial = "
                    "non-empty line inside the property's quantifier; driver lines are generated sentences and their mutations")
     cov["exhaustive"] = True
